@@ -6,15 +6,19 @@ Theorems about `toJson` / `fromJson` (L2) for EVERY spec, value and JSON documen
 hold for every such function.  Float laws used: FL-cast.
 -/
 import CambrianModel.Lemmas.JsonLemmas
+import CambrianModel.Lemmas.CtlStep
 namespace Cambrian.Props
 open Cambrian
 
 /-- Reading a guess is a total function (Lean accepts `fromJson` as terminating: no crash, no loop), and whatever it
     accepts conforms to the spec: wrong type, unknown or missing key, out-of-bounds number, wrong array length, map
-    size outside its bounds, unknown option are all rejected. -/
+    size outside its bounds, unknown option are all rejected.
+    `jsized j`: no JSON array of the document has more than `usize::MAX` elements (true of every `Vec`; needed because
+    the array form of a map without `max_size` numbers its keys by position and `conf` wants keys `<= usize::MAX`). -/
 theorem C11_reject (cast : Int → F64) (hcast : ∀ i, (cast i).isFinite = true) (s : SNode) (j : J) (v : VNode)
-    (hs : wf s = true) (hj : jvalid j = true) (h : fromJson cast s j = .ok v) : conf s v = true :=
-  fromJson_conf cast hcast s j v hs hj h
+    (hs : wf s = true) (hj : jvalid j = true) (hz : jsized j = true) (h : fromJson cast s j = .ok v) :
+    conf s v = true :=
+  fromJson_conf cast hcast s j v hs hj hz h
 
 /-- For every spec and every conforming value: serialising and reading back succeeds and serialises to the same
     JSON again (so a reported best-seen can seed the next run). -/
@@ -31,5 +35,20 @@ theorem C11_rt_value (cast : Int → F64) (s : SNode) (v : VNode) (hs : wf s = t
 /-- The initial value of a well-formed spec conforms to it (so the clauses above apply to it). -/
 theorem C11_init_conf (s : SNode) (hs : wf s = true) : conf s (initialValue s) = true :=
   initialValue_conf s hs
+
+/-- Supplying the spec's own initial value as the guess: it is read back as exactly the initial value (unambiguous
+    specs), so the controller is started with the same initial individual as without a guess - and the run, being a
+    function of that individual, the configuration, the random decisions and the schedule, is the same run. -/
+theorem C11_same (cast : Int → F64) (s : SNode) (hs : wf s = true) (hu : unambiguous s = true) :
+    fromJson cast s (toJson (initialValue s)) = .ok (initialValue s) :=
+  roundtrip_value cast s (initialValue s) hs hu (initialValue_conf s hs)
+
+/-- A rejected guess ends the run before any evaluation is started: the only action ever is the return. -/
+theorem C11_before {V : Type} (c : Ctl.Cfg) (ss : Nat) (d : V) (chs : Nat → Algo.Choice V) (evs : List (Ctl.Ev V)) :
+    (Ctl.run c ss none d chs evs).2 = [.ret .badGuess []] := by
+  have h : (Ctl.init c ss (none : Option V) d chs).1.done = true := rfl
+  have e : Ctl.run c ss none d chs evs = Ctl.run c ss none d chs ([] ++ evs) := rfl
+  rw [e, Ctl.run_append, Ctl.stepsFrom_done evs _ (by exact h)]
+  rfl
 
 end Cambrian.Props
